@@ -62,9 +62,27 @@ type c10Case struct {
 	Note string   `json:"note,omitempty"`
 	// Expect: regression corpus cases carry the recorded RFC value; the driver checks out[0] against it
 	Expect string `json:"expect,omitempty"`
+	// Rx: receive-direction cases (a record built independently per RFC was fed to Decrypt / Open)
+	Rx *c10Rx `json:"rx,omitempty"`
+}
+
+// c10Rx describes one receive-direction observation for the driver's monitor and the replay file.
+type c10Rx struct {
+	Family  string `json:"family"`            // suite family
+	Suite   string `json:"suite"`             // suite name
+	Want    int    `json:"want"`              // 1: conforming record, must be accepted; 0: negative control
+	Got     int    `json:"got"`               // what Decrypt / Open did
+	Control string `json:"control,omitempty"` // which bit was changed (negative controls)
+	Err     string `json:"err,omitempty"`
+	Record  string `json:"record"`            // the record fed to the receiver (hex)
+	Key     string `json:"key"`               // peer write key
+	IV      string `json:"iv,omitempty"`      // peer write IV
+	MacKey  string `json:"mac_key,omitempty"` // peer MAC key (CBC)
+	Nonce   string `json:"nonce_mode,omitempty"`
 }
 
 type c10Out struct {
+	rx     *c10Rx
 	f      *os.File
 	site   string
 	note   string
@@ -87,7 +105,7 @@ func newC10Out(t *testing.T) *c10Out {
 }
 
 func (o *c10Out) emit(fn, h int, tag string, in [][]byte, n []uint64, out [][]byte) {
-	c := c10Case{Fn: fn, H: h, Tag: tag, N: n, In: []string{}, Out: []string{}, Site: o.site, Note: o.note, Expect: o.expect}
+	c := c10Case{Fn: fn, H: h, Tag: tag, N: n, In: []string{}, Out: []string{}, Site: o.site, Note: o.note, Expect: o.expect, Rx: o.rx}
 	if c.N == nil {
 		c.N = []uint64{}
 	}
